@@ -207,27 +207,39 @@ def make_lf(spec):
 
 
 def scalar_params(lf):
-    """(name, has an edge dimension) of the numeric input parameters"""
+    """(name, has an edge dimension, has a bin dimension) of the numeric input parameters"""
     out = []
+    nb = len(getattr(lf, "bin_names", []) or [])
     for par in lf.get_param_names():
         defn = lf.defn_for[par]
         if getattr(defn, "numeric", False) and hasattr(defn, "get_param_rules"):
-            out.append((par, "edge" in defn.valid_dimensions))
+            out.append((par, "edge" in defn.valid_dimensions, "bin" in defn.valid_dimensions and nb > 1))
     return out
 
 
-def pvalue(lf, par, e):
-    return float(lf.get_param_value(par, edge=e) if e is not None else lf.get_param_value(par))
+def cells_of(lf, edges, has_edge, has_bin):
+    bins = list(lf.bin_names) if has_bin else [None]
+    return [(e, b) for e in (edges if has_edge else [None]) for b in bins]
+
+
+def pvalue(lf, par, cell):
+    e, b = cell
+    kw = {}
+    if e is not None:
+        kw["edge"] = e
+    if b is not None:
+        kw["bin"] = b
+    return float(lf.get_param_value(par, **kw))
 
 
 def param_table(lf, edges):
-    """every parameter value of the function: scalars by edge, plus the probability vectors"""
+    """every parameter value of the function: scalars by (edge, bin), plus the probability vectors"""
     import numpy
 
     tab = {}
-    for par, has_edge in scalar_params(lf):
-        for e in (edges if has_edge else [None]):
-            tab[f"{par}|{e}"] = pvalue(lf, par, e)
+    for par, has_edge, has_bin in scalar_params(lf):
+        for c in cells_of(lf, edges, has_edge, has_bin):
+            tab[f"{par}|{c[0]}|{c[1]}"] = pvalue(lf, par, c)
     for par in lf.get_param_names():
         defn = lf.defn_for[par]
         if not getattr(defn, "numeric", False) and hasattr(defn, "get_param_rules"):
@@ -235,6 +247,45 @@ def param_table(lf, edges):
             for i, x in enumerate(v):
                 tab[f"{par}#{i}"] = float(x)
     return tab
+
+
+def scope_tables(lf):
+    """the scope table of every numeric input parameter, read from the definition itself:
+    {par: {dims, indep_default, lower, upper, nfp, cells: [[scope tuple, index, const, lower, value, upper]]}}"""
+    out = {}
+    for par, _, _ in scalar_params(lf):
+        d = lf.defn_for[par]
+        cells = []
+        for k in sorted(d.assignments):
+            st = d.assignments[k]
+            assert d.uniq[d.index[k]] is st, "index/uniq out of date"
+            const = bool(st.is_constant)
+            cells.append([list(k), int(d.index[k]), const, None if const else float(st.lower), float(st.value),
+                          None if const else float(st.upper), getattr(st, "_serial", None)])
+        out[par] = dict(dims=list(d.valid_dimensions), indep_default=bool(d.independent_by_default), lower=float(d.lower),
+                        upper=float(d.upper), nfp=int(d.get_num_free_params()), cells=cells)
+    return out
+
+
+def canon_rules(rules):
+    """exported rules of the numeric parameters, per parameter, in export order"""
+    import numpy
+
+    out = {}
+    for r in rules:
+        v = r.get("init", r.get("value"))
+        if isinstance(v, dict) or numpy.ndim(v):
+            continue
+        sc = {}
+        for one, many in (("edge", "edges"), ("bin", "bins"), ("locus", "loci")):
+            if one in r:
+                sc[one] = [r[one]]
+            elif many in r:
+                sc[one] = list(r[many])
+        out.setdefault(r["par_name"], []).append(
+            dict(scope=sc, indep=r.get("is_independent"), const=bool(r.get("is_constant", False)), value=float(v),
+                 lower=None if r.get("lower") is None else float(r["lower"]), upper=None if r.get("upper") is None else float(r["upper"])))
+    return out
 
 
 def rules_summary(rules):
@@ -269,6 +320,8 @@ def apply_setting(lf, s):
         kw = {}
         if s.get("edges"):
             kw["edges"] = list(s["edges"])
+        if s.get("bins"):
+            kw["bins"] = list(s["bins"])
         if s.get("const"):
             kw.update(value=s["value"], is_constant=True)
         else:
@@ -278,21 +331,23 @@ def apply_setting(lf, s):
 
 class Settings:
     """the FINAL settings a history leaves behind, tracked by the harness itself (not read from the
-    function under test, except the values an optimiser session left): per parameter and edge
-    (group id, value, is_constant) — edges with the same group id share one parameter.
-    Parameters without an edge dimension are tracked under the pseudo-edge None."""
+    function under test, except the values an optimiser session left): per parameter and cell
+    (edge, bin): [group id, value, is_constant] — cells with the same group id share one parameter;
+    group ids are handed out chronologically."""
 
     def __init__(self, spec):
         lf = make_lf(spec)
         self.edges = [e.name for e in lf.tree.get_edge_vector(include_root=False)]
         self.par = {}
         self.gid = 0
-        for par, has_edge in scalar_params(lf):
+        self.bounds = {}
+        for par, has_edge, has_bin in scalar_params(lf):
             self.par[par] = {}
+            self.bounds[par] = (float(lf.defn_for[par].lower), float(lf.defn_for[par].upper))
             shared = self._new()
-            for e in (self.edges if has_edge else [None]):
+            for c in cells_of(lf, self.edges, has_edge, has_bin):
                 g = self._new() if par == "length" else shared
-                self.par[par][e] = [g, pvalue(lf, par, e), False]
+                self.par[par][c] = [g, pvalue(lf, par, c), False]
         self.touched = set()
         self.other = {}
 
@@ -307,15 +362,18 @@ class Settings:
         par = s["par"]
         assert par in self.par, par
         self.touched.add(par)
-        E = s.get("edges") or list(self.par[par])
+        E, B = s.get("edges"), s.get("bins")
+        sel = [c for c in self.par[par] if (not E or c[0] in E) and (not B or c[1] in B)]
         g = self._new()
-        for e in E:
+        lo, hi = self.bounds[par]
+        v = s["value"] if s.get("const") else min(max(s["value"], lo), hi)     # a free value is clipped to the bounds
+        for c in sel:
             if s.get("const"):
-                self.par[par][e] = [self._new(), s["value"], True]
+                self.par[par][c] = [self._new(), v, True]
             elif s.get("indep"):
-                self.par[par][e] = [self._new(), s["value"], False]
+                self.par[par][c] = [self._new(), v, False]
             else:
-                self.par[par][e] = [g, s["value"], False]
+                self.par[par][c] = [g, v, False]
 
     def after_calc(self, lf):
         import numpy
@@ -323,15 +381,17 @@ class Settings:
         if "bprobs" in lf.get_param_names():
             self.other["bprobs"] = numpy.array(lf.get_param_value("bprobs"), dtype=float)
         for par, d in self.par.items():
-            for e, rec in d.items():
+            for c, rec in d.items():
                 if not rec[2]:
-                    v = pvalue(lf, par, e)
+                    v = pvalue(lf, par, c)
                     if v != rec[1]:
                         self.touched.add(par)
                     rec[1] = v
 
     def build(self, spec):
-        """a newly built function given these settings, each parameter group set exactly once"""
+        """a newly built function given these settings.  Each group is set by ONE rule over the bounding
+        box of its cells, groups in chronological order: a later group's box only spills over cells that
+        belong to still later groups, which then overwrite them."""
         lf = make_lf(spec)
         if "aln" in self.other:
             apply_setting(lf, self.other["aln"])
@@ -341,12 +401,14 @@ class Settings:
             lf.set_param_rule("bprobs", init=self.other["bprobs"].copy())
         for par in sorted(self.touched):
             groups = {}
-            for e in self.par[par]:
-                g, v, c = self.par[par][e]
-                groups.setdefault(g, [[], v, c])[0].append(e)
+            for c in self.par[par]:
+                g, v, k = self.par[par][c]
+                groups.setdefault(g, [[], v, k])[0].append(c)
             for g in sorted(groups):
-                E, v, c = groups[g]
-                apply_setting(lf, dict(what="par", par=par, edges=None if E == [None] else E, value=v, const=c, indep=False))
+                cells, v, k = groups[g]
+                E = sorted({c[0] for c in cells if c[0] is not None}) or None
+                B = sorted({c[1] for c in cells if c[1] is not None}) or None
+                apply_setting(lf, dict(what="par", par=par, edges=E, bins=B, value=v, const=k, indep=False))
         return lf
 
 
@@ -367,7 +429,7 @@ def roundtrip(spec, lf, st):
         if d > worst:
             worst, which = d, [k, a[k], b[k]]
     return dict(lnL=float(new.get_log_likelihood()), nfp=int(new.get_num_free_params()), worst=worst, which=which,
-                rules=rules_summary(rules), nparams=len(a))
+                rules=rules_summary(rules), nparams=len(a), canon=canon_rules(rules), tables=scope_tables(new))
 
 
 def run_lf(case):
@@ -384,7 +446,7 @@ def run_lf(case):
     def record(tag, extra=None):
         fr = st.build(spec)
         out.append([tag, float(lf.get_log_likelihood()), float(fr.get_log_likelihood()), int(lf.get_num_free_params()),
-                    int(fr.get_num_free_params()), extra, roundtrip(spec, lf, st)])
+                    int(fr.get_num_free_params()), extra, roundtrip(spec, lf, st), scope_tables(lf)])
 
     record("init")
     for o in ops:
